@@ -52,8 +52,18 @@ def run(chk):
                 continue
         if asm_streams.sig(ci) != asm_streams.sig(cm):
             ndis += 1
-            chk.violation("model/implementation correspondence broken: impl %s model %s" % (str(ci)[:200], str(cm)[:200]),
-                          dict(rep, theorems=["C01_sound_partial", "C01_denote_certified"]), found=False)
+            # which side is wrong?  The extracted certificate on the implementation's own result decides it when the
+            # implementation assembled: a result that does not survive recomputation from its final symbol values is wrong
+            cert = None
+            if ci[0] == "OK":
+                f = a.split("\t")
+                cert = vlib.run_lines([R.model], [p.model_line(30, m) + "\tcert\t" + ((f[4] if len(f) > 4 else "") + (f[5] if len(f) > 5 else "")) + "\t" + f[1]], shards=1)[0]
+            if cert == "CERT-FAIL":
+                chk.violation("the implementation's bits are not what its own final symbol values give (recomputation fails) and differ from the model: impl %s model %s"
+                              % (str(ci)[:200], str(cm)[:200]), dict(rep, certificate=cert))
+            else:
+                chk.violation("model/implementation correspondence broken: impl %s model %s" % (str(ci)[:200], str(cm)[:200]),
+                              dict(rep, theorems=["C01_sound_partial", "C01_denote_certified"]), found=False)
         if i % 700 == 2:
             chk.sample({"program": text, "impl": a[:300], "denote": d[:300]})
     # ---- C01_complete: whatever the definition accepts, the implementation (static optimisation off, as in the theorem)
@@ -82,9 +92,54 @@ def run(chk):
         if not at.startswith("OK"):
             ntight += 1
     chk.count("budget_bound", len(bcases), undefined_syntactic=sum(1 for m_ in bmeta if m_[3] == '-'), fails_one_pass_below=ntight)
+    addr_layout_stream(chk, quick, R)
     chk.count("programs", len(progs), **dist)
     chk.cov["traces_validated_against_impl"] = len(progs)
     chk.cov["disagreements_checked"] = ndis
+
+
+def addr_layout_stream(chk, quick, R):
+    """size-static programs that place items with forward AND backward `#addr` (outside the resolver model, which has no
+    overlap detection): the definition is direct -- every item occupies [8*addr, 8*addr + size); two written items that
+    share a bit make the program an error; otherwise the output is the items at their places, zero elsewhere, as long
+    as the highest written bit"""
+    rng = chk.rng.fork("c01-addr")
+    isa = "#ruledef\n{\n    ld {x: u8} => 0x11 @ x\n    nop => 0x00\n}\n"
+    cases = []
+    for _ in range(250 if quick else 2500):
+        lines, items, pos = [], [], 0
+        for _i in range(rng.range(2, 7)):
+            if rng.chance(0.45):
+                a = rng.below(10)
+                lines.append("#addr %d" % a); pos = 8 * a
+            k = rng.below(4)
+            v = rng.below(256)
+            if k == 0:
+                lines.append("#d8 %d" % v); bits = format(v, "08b")
+            elif k == 1:
+                lines.append("#d16 %d" % v); bits = format(v, "016b")
+            elif k == 2:
+                lines.append("ld %d" % v); bits = "00010001" + format(v, "08b")
+            else:
+                lines.append("nop"); bits = "00000000"
+            items.append((pos, bits)); pos += len(bits)
+        overlap = any(a[0] < b[0] + len(b[1]) and b[0] < a[0] + len(a[1]) for i, a in enumerate(items) for b in items[:i])
+        img = ["0"] * max(p0 + len(b) for p0, b in items)
+        for p0, b in items:
+            img[p0:p0 + len(b)] = list(b)
+        cases.append((isa + "\n".join(lines) + "\n", None if overlap else "".join(img)))
+    ans = R.impl([(t, 10, rng.chance(0.5), rng.chance(0.5)) for (t, _) in cases])
+    dist = {"placed_ok": 0, "overlap": 0}
+    for (t, want), a in zip(cases, ans):
+        ci = asm_gen.canon_impl(a)
+        dist["overlap" if want is None else "placed_ok"] += 1
+        chk.nontriv(t)
+        got = ci[1] if ci[0] == "OK" else None
+        if ci[0] not in ("OK", "ERR") or got != want:
+            chk.violation("items placed with #addr: the implementation %s, the definition says %s" % (
+                "assembles" if got is not None else "rejects (%s)" % ci[0], "two items share an output bit: error" if want is None else "bits " + want),
+                {"kind": "program", "program": t, "budget": 10, "impl": a[:1000], "expected_bits": want})
+    chk.count("addr_layout_programs", len(cases), **dist)
 
 
 def replay(chk, rep):
